@@ -158,6 +158,11 @@ def check(run: Run, ctx) -> None:
         "CPython's \\w / str.lower / str.upper / str.isdigit for non-ASCII characters are supplied to the model by the harness "
         "(UInfo), U+03A3 (context-dependent lower()) and lone surrogates are excluded from generators",
     ]
+    # names invented by the inline-extraction passes (…Item / …Enum + suffix loops): real extract_inline_enums vs Pog.Extract
+    from . import _generic as g
+    g.run_corr(run, ctx, "vf.corr.extract", "Extract (extract_inline_array_items / extract_inline_enums / model kind vs Pog.Extract)", quick=0.3, thorough=3.0)
+    g.run_oracle(run, ctx, g.Informational(known), "vf.corr.extract", "extraction passes on the real functions (keys kept, new names fresh, wire keys unchanged)",
+                 {"extract-not-idempotent": "-hazard", "extract-wire-array-flip": "-hazard"}, quick=0.3, thorough=3.0)
     strs = inputs(ctx, r)
     u = drv.uinfo(strs)
     run.cov["exhaustive"] = False
